@@ -357,6 +357,39 @@ def copy_independence_obligations():
     return obs, decls
 
 
+def alias_literal_obligations():
+    """the right-hand side of an assignment is complete before a byte of the destination changes, also when the literal
+    reads the destination through a pointer instead of by its name"""
+    obs = []; decls = []
+    pair = Struct('AL2', [('x', S('i32')), ('y', S('i32'))])
+    inner = Struct('ALI', [('a', S('i64')), ('b', S('i64'))]); outer = Struct('ALO', [('k', S('u8')), ('inner', inner), ('t', S('u8'))])
+    decls += [pair, inner, outer]
+    arr = Array(3, S('i64'))
+
+    def swapped(ctx, out_b, src_b, moves, ty):
+        goals = [('nothing outside the destination changed', z3.And(frame(ctx, src_b, []), frame(ctx, out_b, [(0, ty.size())])))]
+        for (do, so, n) in moves:
+            goals.append(('member at %d holds the OLD member at %d' % (do, so), ctx.final_bytes(out_b, do, n) == ctx.init_bytes(src_b, so, n)))
+        return goals
+    cases = [
+        ('al_pair', pair, 'p := src^; q := ^p; p = AL2.{ x = q.y, y = q.x }; out^ = p;', [(0, 4, 4), (4, 0, 4)]),
+        ('al_pair_mut', pair, 'p := src^; q := ^mut p; p = AL2.{ x = q.y, y = q.x }; out^ = p;', [(0, 4, 4), (4, 0, 4)]),
+        ('al_arr', arr, 'a := src^; pa := ^a; a = i64.[pa[2], pa[0], pa[1]]; out^ = a;', [(0, 16, 8), (8, 0, 8), (16, 8, 8)]),
+        ('al_nested', outer, 'o := src^; po := ^mut o; po.inner = ALI.{ a = o.inner.b, b = o.inner.a }; out^ = o;',
+         [(outer.field('inner')[1], outer.field('inner')[1] + 8, 8), (outer.field('inner')[1] + 8, outer.field('inner')[1], 8), (0, 0, 1)]),
+        ('al_nested_ptr', outer, 'o := src^; po := ^o; o.inner = ALI.{ a = po.inner.b, b = po.inner.a }; out^ = o;',
+         [(outer.field('inner')[1], outer.field('inner')[1] + 8, 8), (outer.field('inner')[1] + 8, outer.field('inner')[1], 8)]),
+    ]
+    for name, ty, body, moves in cases:
+        src = '%s :: (src: ^%s, out: ^mut %s) { %s }' % (name, ty.src(), ty.src(), body)
+
+        def post(ctx, xs, moves=moves, ty=ty):
+            src_b, out_b = ctx.bufs
+            return swapped(ctx, out_b, src_b, moves, ty)
+        obs.append(Ob(name, src, [('buf', ty, False), ('buf', ty, True)], None, post, {'kind': 'literal-reads-destination-through-alias', 'agg': ty.src()}))
+    return obs, decls
+
+
 def abi_obligations(sizes, rnd):
     """struct arguments and returns of each size: bytes arrive intact, caller's copy is independent, neighbours untouched"""
     obs = []; decls = []
@@ -418,6 +451,8 @@ def run(chk, tier, seed):
     obs += lit_obs
     ci_obs, ci_decls = copy_independence_obligations()
     obs += ci_obs
+    al_obs, al_decls = alias_literal_obligations()
+    obs += al_obs; ci_decls = ci_decls + al_decls
     ca_obs, ca_decls = compound_assign_obligations()
     ca_decls = ca_decls + ci_decls
     # the forms that the type checker may reject are tried one by one; only the accepted ones are obligations
